@@ -5,6 +5,10 @@ sys.path.insert(0, os.path.join(os.path.dirname(os.path.abspath(__file__)), ".."
 from common import *
 import e1
 ensure_vendor()
+ok, msg = e1.fidelity_gate()
+print(msg)
+if not ok:
+    sys.exit(1)
 ws = e1.workspace("kani", e1.DEFAULT_FEATURES)
 rc, out, secs = sh(["cargo", "kani", "--features", e1.DEFAULT_FEATURES, "--only-codegen"], cwd=ws, timeout=1800)
 print("kani codegen rc=%s in %.0fs" % (rc, secs))
